@@ -14,6 +14,7 @@ struct TableQuerier {
     bank: BTreeMap<(String, String), u128>,
     supply: BTreeMap<String, u128>,
     smart: Vec<(String, Value, Value)>,
+    contract_info: Option<Value>,
 }
 
 impl Querier for TableQuerier {
@@ -43,6 +44,10 @@ impl Querier for TableQuerier {
                 }
                 SystemResult::Err(SystemError::NoSuchContract { addr: format!("{} query {}", contract_addr, m) })
             }
+            QueryRequest::Wasm(WasmQuery::ContractInfo { contract_addr }) => match &self.contract_info {
+                Some(ci) => SystemResult::Ok(ContractResult::Ok(Binary::from(serde_json::to_vec(ci).unwrap()))),
+                None => SystemResult::Err(SystemError::NoSuchContract { addr: contract_addr }),
+            },
             _ => SystemResult::Err(SystemError::UnsupportedRequest { kind: "unsupported".into() }),
         }
     }
@@ -90,7 +95,7 @@ fn run(sc: &Value) -> Value {
         }
     }
     let smart = sc["smart"].as_array().unwrap().iter().map(|e| (e[0].as_str().unwrap().to_string(), e[1].clone(), e[2].clone())).collect();
-    let mut deps = OwnedDeps { storage, api: MockApi::default(), querier: TableQuerier { bank, supply, smart }, custom_query_type: std::marker::PhantomData::<Empty> };
+    let mut deps = OwnedDeps { storage, api: MockApi::default(), querier: TableQuerier { bank, supply, smart, contract_info: sc.get("contract_info").cloned() }, custom_query_type: std::marker::PhantomData::<Empty> };
     let env = Env {
         block: BlockInfo { height: sc["env"]["height"].as_u64().unwrap(), time: Timestamp::from_nanos(sc["env"]["time_nanos"].as_str().unwrap().parse().unwrap()), chain_id: "chain-1".into() },
         transaction: None,
@@ -112,6 +117,10 @@ fn run(sc: &Value) -> Value {
             "incentive" => dispatch!(incentive, entry.as_str(), deps, env, info, m, reply = no),
             "incentive_factory" => dispatch!(incentive_factory, entry.as_str(), deps, env, info, m, reply = yes),
             "vault" => dispatch!(vault, entry.as_str(), deps, env, info, m, reply = no),
+            "vault_factory" if entry == "reply" => {
+                let rep: Reply = from_json(m).map_err(|e| format!("ParseMsg({e})"))?;
+                vault_factory::reply::reply(deps.as_mut(), env.clone(), rep).map(|r| serde_json::to_value(&r).unwrap()).map_err(|e| format!("{:?}", e))
+            }
             "vault_factory" => dispatch!(vault_factory, entry.as_str(), deps, env, info, m, reply = no),
             "vault_router" => dispatch!(vault_router, entry.as_str(), deps, env, info, m, reply = no),
             "whale_lair" => dispatch!(whale_lair, entry.as_str(), deps, env, info, m, reply = no),
